@@ -1,3 +1,5 @@
+mod arrgen;
+mod c01;
 mod c13;
 mod c14;
 mod c15;
@@ -36,6 +38,7 @@ fn main() {
     std::thread::spawn(move || { std::thread::sleep(std::time::Duration::from_secs(limit)); eprintln!("WATCHDOG: harness exceeded {} s (possible hang in the implementation)", limit); std::process::exit(3); });
     let mut ctx = ctx::Ctx::new(&prop, thorough, seed, out, only);
     match prop.as_str() {
+        "C01" | "C03" => c01::run(&mut ctx),
         "C13" => c13::run(&mut ctx),
         "C14" => c14::run(&mut ctx),
         "C15" => c15::run(&mut ctx),
